@@ -62,6 +62,7 @@ class Engine:
         self.exhausted = False
         self.nontrivial_paths = 0
         self.fp_precise = False  # divisions are carried out bit-precisely in the z3 FP theory
+        self.deadline: Optional[float] = None  # wall-clock instant after which TimeoutError ends the exploration
 
     # ---- variables -------------------------------------------------------------------
     def _name(self, base: str) -> str:
@@ -90,6 +91,8 @@ class Engine:
 
     # ---- solver ----------------------------------------------------------------------
     def _check(self, *extra: Any) -> str:
+        if self.deadline is not None and time.time() > self.deadline:
+            raise TimeoutError()
         t0 = time.perf_counter()
         self.queries += 1
         r = self.solver.check(*extra)
@@ -358,9 +361,13 @@ class SInt:
         return self._bin(o, lambda a, b: a - b, True)
 
     def __mul__(self, o: Any) -> Any:
+        if isinstance(o, float) and _it(o) is None:
+            return fmul_const(self.t, o)
         return self._bin(o, lambda a, b: a * b)
 
     def __rmul__(self, o: Any) -> Any:
+        if isinstance(o, float) and _it(o) is None:
+            return fmul_const(self.t, o)
         return self._bin(o, lambda a, b: a * b, True)
 
     def __neg__(self) -> "SInt":
@@ -374,7 +381,9 @@ class SInt:
 
     def __floordiv__(self, o: Any) -> Any:
         io = _it(o)
-        if io is None or isinstance(o, (float, SFloat)):
+        if io is not None and isinstance(o, (float, SFloat)):
+            return SFloat(z3.ToReal(self.t), self.t) // o
+        if io is None:
             raise HarnessError("floordiv with non-integer operand not modelled")
         return SInt(py_floordiv(self.t, io))
 
@@ -460,6 +469,39 @@ class SFloat:
             raise HarnessError("float arithmetic on non-integer-valued doubles is outside the model")
         return SFloat(f(a, b), ii)
 
+    def _mul(self, o: Any) -> Any:
+        if isinstance(o, float) and _it(o) is None and self.it is not None:
+            return fmul_const(self.it, o)
+        return self._bin(o, lambda a, b: a * b)
+
+    def __floordiv__(self, o: Any) -> Any:
+        # float // float of integer-valued doubles below 2**53: fmod, the subtraction and the division are exact
+        io = _it(o)
+        if io is None or self.it is None:
+            raise HarnessError("float floordiv of non-integer-valued doubles is outside the model")
+        if eng().decide(io == 0):
+            raise ZeroDivisionError("float floor division by zero")
+        q = py_floordiv(self.it, io)
+        return SFloat(z3.ToReal(q), q)
+
+    def __rfloordiv__(self, o: Any) -> Any:
+        io = _it(o)
+        if io is None or self.it is None:
+            raise HarnessError("float floordiv of non-integer-valued doubles is outside the model")
+        if eng().decide(self.it == 0):
+            raise ZeroDivisionError("float floor division by zero")
+        q = py_floordiv(io, self.it)
+        return SFloat(z3.ToReal(q), q)
+
+    def __mod__(self, o: Any) -> Any:
+        io = _it(o)
+        if io is None or self.it is None:
+            raise HarnessError("float mod of non-integer-valued doubles is outside the model")
+        if eng().decide(io == 0):
+            raise ZeroDivisionError("float modulo")
+        q = py_mod(self.it, io)
+        return SFloat(z3.ToReal(q), q)
+
     def __add__(self, o: Any) -> Any:
         return self._bin(o, lambda a, b: a + b)
 
@@ -473,10 +515,10 @@ class SFloat:
         return self._bin(o, lambda a, b: a - b, True)
 
     def __mul__(self, o: Any) -> Any:
-        return self._bin(o, lambda a, b: a * b)
+        return self._mul(o)
 
     def __rmul__(self, o: Any) -> Any:
-        return self._bin(o, lambda a, b: a * b, True)
+        return self._mul(o)
 
     def __neg__(self) -> "SFloat":
         return SFloat(-self.t, None if self.it is None else -self.it)
@@ -552,6 +594,58 @@ def fdiv(a: Any, b: Any) -> Any:
     e.solver.add(z3.If(divides, r == exact, z3.And(r - exact <= FDIV_EPS, exact - r <= FDIV_EPS, r > z3.ToReal(fl), r < z3.ToReal(fl + 1))))
     e.solver.add(z3.Implies(divides, r == z3.ToReal(fl)))
     return SFloat(r, None, fl, divides)
+
+
+def fmul_const(ix: Any, c: float) -> "SFloat":
+    """one IEEE-754 double multiplication (round to nearest, ties to even) of an integer-valued double |x| < 2**53 by the
+    concrete double c - modelled EXACTLY in integer arithmetic: with |c| = num / 2**k the exact product is N / 2**k for
+    N = |x| * num; if N has n > 53 bits the low s = n - 53 bits are rounded away (half-even); the binade of N is a path
+    decision (one fork per feasible bit length, smallest first)."""
+    import math
+
+    e = eng()
+    if c == 0.0 or math.isnan(c) or math.isinf(c):
+        raise HarnessError(f"product with {c!r} outside the model")
+    num, den = abs(c).as_integer_ratio()
+    k = den.bit_length() - 1
+    if math.frexp(abs(c))[1] < -900 or math.frexp(abs(c))[1] > 900:
+        raise HarnessError("product with a subnormal / huge constant outside the model")
+    if not e.decide(z3.And(ix < 2**53, ix > -(2**53))):
+        e.bound_exceeded += 1
+        raise BoundExceeded("integer-valued double beyond 2**53")
+    if e.decide(ix == 0):
+        return SFloat(z3.RealVal(0), z3.IntVal(0))
+    xneg = e.decide(ix < 0)
+    ax = -ix if xneg else ix
+    neg = xneg if c > 0 else not xneg
+    N = ax * num
+    nb = num.bit_length()
+    # the binade of the exact product is a path decision, smallest first (a counterexample near zero is found on the first paths)
+    n = None
+    for cand in range(nb, nb + 54):
+        if e.decide(N < 2**cand):
+            n = cand
+            break
+    if n is None:
+        raise HarnessError("product beyond 2**106")
+    sdrop = n - 53
+    if sdrop <= 0:
+        mant, ex = N, -k
+    else:
+        q = N / (2**sdrop)
+        rem = N - q * (2**sdrop)
+        half = 2 ** (sdrop - 1)
+        up = z3.Or(rem > half, z3.And(rem == half, q % 2 == 1))
+        mant, ex = z3.If(up, q + 1, q), sdrop - k
+    if ex >= 0:
+        mi = mant * (2**ex)
+        it = -mi if neg else mi
+        return SFloat(z3.ToReal(it), it)
+    d = 2 ** (-ex)
+    mag, mfl, mint = z3.ToReal(mant) / z3.RealVal(d), mant / d, mant % d == 0
+    if neg:
+        return SFloat(-mag, None, z3.If(mint, -mfl, -mfl - 1), mint)
+    return SFloat(mag, None, mfl, mint)
 
 
 def kint(x: Any = 0, *a: Any) -> Any:
